@@ -133,14 +133,109 @@ def _loops_transpose(A, order):
     return out
 
 
+def _gen_typed(tier, seed):
+    rng = gen.rng_for(seed + 1, ID, tier)
+    # subscripts held in narrow integer types, reshaped into a mode longer than that type can index
+    narrow = [("uint8", [20, 20], [400]), ("uint8", [16, 16], [256]), ("uint8", [2, 130], [260]), ("int8", [12, 12], [144]), ("int8", [5, 6, 7], [210]),
+              ("int16", [200, 200], [40000]), ("uint8", [20, 20], [2, 200]), ("uint8", [3, 100], [300, 1]), ("int32", [6, 7], [42]), ("uint16", [300, 300], [90000])]
+    for dt, shp, tgt in narrow:
+        for _ in range(1 if tier == "quick" else 5):
+            yield {"w": "reshape_narrow", "shape": shp, "new_shape": tgt, "dtype": dt, "cseed": int(rng.integers(0, 2 ** 31))}
+    yield {"w": "reshape_narrow", "shape": [20, 3, 20], "new_shape": [400], "old_modes": [0, 2], "dtype": "uint8", "cseed": int(rng.integers(0, 2 ** 31))}
+    yield {"w": "reshape_narrow", "shape": [20, 3, 20], "new_shape": [400], "old_modes": [2, 0], "dtype": "uint8", "cseed": int(rng.integers(0, 2 ** 31))}
+    # integer values that no double represents: an index map must hand them over unchanged
+    for shp in ([1], [1, 1], [1, 1, 1], [1, 1, 1, 1], [1, 2, 1], [2, 1], [1, 3, 1, 2]):
+        for vt in ("int64", "uint64"):
+            yield {"w": "bigint", "shape": shp, "vt": vt, "cseed": int(rng.integers(0, 2 ** 31))}
+
+
 def gen_cases(tier, seed):
+    yield from _gen_hist(tier, seed)
+    for case in _gen_typed(tier, seed):
+        case["hist"] = "ctor"
+        case.setdefault("A", [])
+        case.setdefault("so", None)
+        yield case
+
+
+def _gen_hist(tier, seed):
     # dense-holder history: every third case reaches its dense operand by growth (subtensor assignment past the extent) instead of the constructor
     for i, case in enumerate(_gen_cases(tier, seed)):
         case["hist"] = "grown" if (i + int(seed)) % 3 == 1 else "ctor"
         yield case
 
 
+def _typed_case(case, ctx):
+    rng = np.random.default_rng(case["cseed"])
+    shape = tuple(case["shape"])
+    w = case["w"]
+    if w == "reshape_narrow":
+        dt = np.dtype(case["dtype"])
+        n = int(np.prod(shape))
+        k = min(n, 25)
+        lin = rng.choice(n, size=k, replace=False)
+        if n - 1 not in lin:
+            lin[0] = n - 1                               # the far corner is stored
+        subs = np.stack(np.unravel_index(lin, shape), axis=1)
+        vals = np.round(rng.uniform(1, 9, size=(k, 1)), 3)
+        A = np.zeros(shape)
+        A[tuple(subs.T)] = vals[:, 0]
+        S = ttb.sptensor(subs.astype(dt), vals.copy(), shape)
+        new_shape = tuple(case["new_shape"])
+        old = case.get("old_modes")
+        ctx.feat(subs_dtype=case["dtype"], partial=old is not None)
+        if old is None:
+            want = refops.reshape_ff(A, new_shape)
+            P = ctx.must("sptensor.reshape", S.reshape, new_shape)
+        else:
+            want = refops.partial_reshape_ff(A, new_shape, old)
+            P = ctx.must("sptensor.reshape", S.reshape, new_shape, np.array(old))
+        ctx.structural(P, "sptensor.reshape")
+        ctx.check(tuple(P.shape) == want.shape and same(denote(P), want), "sptensor.reshape", "WRONG",
+                  f"reshape of a {shape} tensor with {case['dtype']} subscripts to {new_shape}: entries moved or lost")
+        if old is None:
+            B = ctx.must("sptensor.reshape", P.reshape, shape)
+            ctx.check(same(denote(B), A), "sptensor.reshape", "WRONG", "reshape there and back is not the identity", roundtrip=True)
+        Pp = ctx.must("sptensor.permute", S.permute, np.arange(len(shape))[::-1].copy())
+        ctx.check(same(denote(Pp), np.transpose(A)), "sptensor.permute", "WRONG", "permute with narrow subscripts")
+        return
+    # bigint
+    vt = np.dtype(case["vt"])
+    n = int(np.prod(shape))
+    base = 2 ** 53 + 1 if vt == np.int64 else 2 ** 63 + 5
+    vals_py = [base + 2 * int(x) for x in rng.integers(0, 1000, size=n)]
+    A = np.array(vals_py, dtype=vt).reshape(shape)
+    T = ttb.tensor(A.copy())
+    subs = np.argwhere(A != 0)
+    S = ttb.sptensor(subs, A[tuple(subs.T)].reshape(-1, 1).copy(), shape)
+    allone = all(s_ == 1 for s_ in shape)
+    ctx.feat(vt=case["vt"], all_singleton=allone)
+    want = np.squeeze(A)
+    for name, H in (("tensor", T), ("sptensor", S)):
+        op = f"{name}.squeeze"
+        P = ctx.must(op, H.squeeze)
+        if allone:
+            ctx.check(not isinstance(P, (ttb.tensor, ttb.sptensor)) and int(P) == vals_py[0] and float(P) == float(vals_py[0]) and
+                      (not isinstance(P, float) or int(P) == vals_py[0]), op, "WRONG", f"all-singleton squeeze of the integer {vals_py[0]} gives {P!r}")
+        elif name == "tensor":
+            ctx.check(tuple(P.shape) == want.shape and np.asarray(P.data).astype(object).tolist() == want.astype(object).tolist(), op, "WRONG", "integer values changed by squeeze")
+        else:
+            got = {tuple(int(x) for x in sub): int(v) for sub, v in zip(np.asarray(P.subs).tolist(), np.asarray(P.vals).reshape(-1).tolist())}
+            wantd = {tuple(int(x) for x in idx): int(want[idx]) for idx in np.ndindex(*want.shape)}
+            ctx.check(tuple(P.shape) == want.shape and got == wantd, op, "WRONG", "integer values changed by squeeze")
+    for name, H in (("tensor", T), ("sptensor", S)):
+        op = f"{name}.permute"
+        P = ctx.must(op, H.permute, np.arange(len(shape))[::-1].copy())
+        vals_after = sorted(int(v) for v in (np.asarray(P.data).reshape(-1).tolist() if name == "tensor" else np.asarray(P.vals).reshape(-1).tolist()))
+        ctx.check(vals_after == sorted(vals_py), op, "WRONG", "integer values changed by permute")
+        P2 = ctx.must(f"{name}.reshape", H.reshape, (n,))
+        vals_after = sorted(int(v) for v in (np.asarray(P2.data).reshape(-1).tolist() if name == "tensor" else np.asarray(P2.vals).reshape(-1).tolist()))
+        ctx.check(vals_after == sorted(vals_py), f"{name}.reshape", "WRONG", "integer values changed by reshape")
+
+
 def run_case(case, ctx):
+    if case["w"] in ("reshape_narrow", "bigint"):
+        return _typed_case(case, ctx)
     shape = tuple(case["shape"])
     A = np.array(case["A"], dtype=float).reshape(shape)
     nnz = int(np.count_nonzero(A))
